@@ -651,6 +651,20 @@ def fine_variant(b: Batch, salt: int = 1) -> Batch:
     return Batch(tuple(conv(a) for a in b.args), {k: conv(v) for k, v in b.kwargs.items()})
 
 
+def bool_label_variant(b: Batch) -> Batch | None:
+    """the same batch with every INTEGER tensor whose values are all 0/1 stored as torch.bool (a common spelling of binary labels /
+    multi-hot masks); None when there is no such tensor.  Counts derived from such a tensor must not inherit its dtype."""
+    hit = [False]
+
+    def conv(a):
+        if isinstance(a, torch.Tensor) and a.dtype in (torch.int64, torch.int32) and a.numel() and bool(((a == 0) | (a == 1)).all()):
+            hit[0] = True
+            return a.to(torch.bool)
+        return a
+    out = Batch(tuple(conv(a) for a in b.args), {k: conv(v) for k, v in b.kwargs.items()})
+    return out if hit[0] else None
+
+
 def grad_variant(b: Batch) -> Batch:
     """the same batch with every floating tensor argument attached to an autograd graph: a NON-LEAF tensor that requires grad
     (x·1 of a leaf that requires grad) — what a model hands over when the caller did not detach its output.  Values are
